@@ -150,10 +150,19 @@ def forbidden_tokens():
     return hits
 
 
+def prop_modules(prop_id):
+    """theorem modules of a property: Props/Cxx.lean plus optional continuation files Props/Cxx[a-z].lean"""
+    d = LEAN / "VrpProofs" / "Props"
+    files = [d / f"{prop_id}.lean"] + sorted(d.glob(f"{prop_id}[a-z].lean"))
+    return [f for f in files if f.exists()]
+
+
 def theorem_names(prop_id):
-    f = LEAN / "VrpProofs" / "Props" / f"{prop_id}.lean"
-    src = strip_comments(f.read_text())
-    return [f"Vrp.{prop_id}.{m}" for m in re.findall(r"^theorem\s+([A-Za-z0-9_'.]+)", src, flags=re.M)]
+    out = []
+    for f in prop_modules(prop_id):
+        src = strip_comments(f.read_text())
+        out += [f"Vrp.{prop_id}.{m}" for m in re.findall(r"^theorem\s+([A-Za-z0-9_'.]+)", src, flags=re.M)]
+    return out
 
 
 def audit_axioms(prop_id):
@@ -162,7 +171,8 @@ def audit_axioms(prop_id):
     d = LEAN / ".lake" / "audit"
     d.mkdir(parents=True, exist_ok=True)
     f = d / f"Audit_{prop_id}_{os.getpid()}.lean"
-    f.write_text(f"import VrpProofs.Props.{prop_id}\n" + "".join(f"#print axioms {n}\n" for n in names))
+    f.write_text("".join(f"import VrpProofs.Props.{m.stem}\n" for m in prop_modules(prop_id))
+                 + "".join(f"#print axioms {n}\n" for n in names))
     try:
         p = _run(["lake", "env", "lean", str(f)], LEAN)
     finally:
